@@ -61,6 +61,14 @@ TCopy ==
            \A b \in 1..TNA, g \in 1..TH : After(b, g) = (IF b = Ev.c THEN val[Ev.a][g] ELSE val[b][g]))
   /\ val' = [a \in 1..TNA |-> [h \in 1..TH |-> After(a, h)]]
   /\ UNCHANGED lrs /\ nmut' = nmut + 1 /\ act' = [op |-> "copy", a |-> Ev.a, c |-> Ev.c]
+\* the driver assigns a hyperparameter (not a learning rate) of one agent: the next mutation starts from it
+TSet ==
+  /\ Ev.op = "set" /\ T.cfg.exact
+  /\ Check("returns without raising", Ev.exc = "")
+  /\ Check("an assignment changes the assigned hyperparameter of that agent only",
+           \A b \in 1..TNA, g \in 1..TH : After(b, g) = (IF b = Ev.a /\ g = Ev.h THEN R(Ev.x) ELSE val[b][g]))
+  /\ val' = [a \in 1..TNA |-> [h \in 1..TH |-> After(a, h)]]
+  /\ UNCHANGED lrs /\ nmut' = nmut + 1 /\ act' = [op |-> "set", a |-> Ev.a, h |-> Ev.h]
 \* inexact mode: facts measured by the harness
 TFacts ==
   /\ ~T.cfg.exact
@@ -74,7 +82,7 @@ TFacts ==
   /\ UNCHANGED <<val, lrs>> /\ nmut' = nmut + 1 /\ act' = [op |-> "facts"]
 
 TAccept == /\ l = Len(T.ev) + 1 /\ PrintT(<<"ACCEPT", tid>>) /\ l' = l + 1 /\ UNCHANGED <<vars, tid>>
-TNext == \/ (l <= Len(T.ev) /\ (TMutate \/ TMutPop \/ TNoop \/ TCopy \/ TFacts) /\ l' = l + 1 /\ UNCHANGED tid)
+TNext == \/ (l <= Len(T.ev) /\ (TMutate \/ TMutPop \/ TNoop \/ TCopy \/ TSet \/ TFacts) /\ l' = l + 1 /\ UNCHANGED tid)
          \/ TAccept
 TSpec == TInit /\ [][TNext]_tvars
 ================================================================================
